@@ -8,8 +8,11 @@ import (
 	"io"
 	"log"
 	"math"
+	"runtime"
 	"strconv"
 	"strings"
+	"sync"
+	"sync/atomic"
 
 	"google.golang.org/protobuf/proto"
 	"google.golang.org/protobuf/types/known/wrapperspb"
@@ -304,6 +307,79 @@ func bigBody(kind, size int, seed uint64, cd, thr int, encb bool) int {
 	return 0
 }
 
+// ---- separate packets on separate goroutines -------------------------------------------------
+// concurrentBodies(seed, g, iters): g goroutines, each with its own packets and value stream,
+// set integer / float bodies and error codes, take the wire form, let the others run, then
+// check that the wire form still decodes to the value and that the packet crosses both codecs
+// with the value intact.  Nothing is shared between the goroutines.
+// Returns 0 ok | 3 a wire form does not give the value back | 4 an error code is not delivered | 5 panic.
+func concurrentBodies(seed uint64, g, iters int) (code int, checked int64) {
+	var wg sync.WaitGroup
+	var bad, n int64
+	for id := 0; id < g; id++ {
+		wg.Add(1)
+		go func(id int) {
+			defer wg.Done()
+			pn, _ := Catch(func() {
+				r := NewRng(seed + uint64(id)*104729)
+				encs := []codec.Encoder{codec.NewV1Encoder(0), codec.NewV2Encoder(0)}
+				for i := 0; i < iters && atomic.LoadInt64(&bad) == 0; i++ {
+					v := int64(r.Next()) >> uint(r.Intn(64))
+					bits := r.Next()
+					ec := int32(r.Next())
+					pa, pb, pc := packet.Make(), packet.Make(), packet.Make()
+					pa.SetBody(v)
+					pb.SetBody(math.Float64frombits(bits))
+					pc.SetErrno(ec)
+					wa, wb, wc := pa.BodyToBytes(), pb.BodyToBytes(), pc.BodyToBytes()
+					runtime.Gosched()
+					x, na := binary.Varint(wa)
+					y, nb := binary.Uvarint(wb)
+					z, nc := binary.Varint(wc)
+					if na != len(wa) || x != v || nb != len(wb) || y != bits || nc != len(wc) || z != int64(ec) {
+						atomic.CompareAndSwapInt64(&bad, 0, 3)
+						return
+					}
+					var buf bytes.Buffer
+					q := packet.Make()
+					e := encs[i%2]
+					if _, err := e.WritePacket(&buf, nil, pc); err != nil {
+						atomic.CompareAndSwapInt64(&bad, 0, 4)
+						return
+					}
+					if err := e.ReadPacket(&buf, nil, q); err != nil || q.Errno() != ec {
+						atomic.CompareAndSwapInt64(&bad, 0, 4)
+						return
+					}
+					buf.Reset()
+					q = packet.Make()
+					if _, err := e.WritePacket(&buf, nil, pa); err != nil {
+						atomic.CompareAndSwapInt64(&bad, 0, 3)
+						return
+					}
+					if err := e.ReadPacket(&buf, nil, q); err != nil {
+						atomic.CompareAndSwapInt64(&bad, 0, 3)
+						return
+					}
+					if w, ok := q.Body().([]byte); !ok {
+						atomic.CompareAndSwapInt64(&bad, 0, 3)
+						return
+					} else if x, nx := binary.Varint(w); nx != len(w) || x != v {
+						atomic.CompareAndSwapInt64(&bad, 0, 3)
+						return
+					}
+					atomic.AddInt64(&n, 5)
+				}
+			})
+			if pn {
+				atomic.CompareAndSwapInt64(&bad, 0, 5)
+			}
+		}(id)
+	}
+	wg.Wait()
+	return int(atomic.LoadInt64(&bad)), atomic.LoadInt64(&n)
+}
+
 // recording endpoint
 type recorder struct {
 	sent []fatchoy.IPacket
@@ -408,6 +484,48 @@ func run1(in Sx) Sx {
 			obs = append(obs, List(Int(1), hdrOfPkt(q2).sx(), bodySx(q2.Body())))
 		}
 		return ListOf(obs)
+	case 9:
+		// several numeric wire forms alive at the same time (a batching writer): BodyToBytes on A,
+		// B and C first, the three slices are looked at only afterwards; then A crosses the codec
+		// after B's wire form has been produced again
+		var ps [3]*packet.Packet
+		for i := range ps {
+			ps[i] = packet.New(int32(100+i), uint16(i), 0, nil)
+			w := in.At(1 + i)
+			if w.At(0).AsInt() == 0 {
+				ps[i].SetErrno(int32(w.At(1).Int64()))
+			} else {
+				ps[i].SetBody(goValue(w.At(1)))
+			}
+		}
+		var ws [3][]byte
+		for i := range ps {
+			ws[i] = ps[i].BodyToBytes()
+		}
+		held := []Sx{Bytes(ws[0]), Bytes(ws[1]), Bytes(ws[2])}
+		var buf bytes.Buffer
+		enc := codec.NewV2Encoder(0)
+		_ = ps[1].BodyToBytes()
+		q := packet.Make()
+		ok := false
+		Catch(func() {
+			if _, err := enc.WritePacket(&buf, nil, ps[0]); err != nil {
+				return
+			}
+			_ = ps[2].BodyToBytes()
+			if err := enc.ReadPacket(&buf, nil, q); err != nil {
+				return
+			}
+			ok = true
+		})
+		d := List(Int(0))
+		if ok {
+			d = List(Int(1), hdrOfPkt(q).sx(), bodySx(q.Body()), Int(int64(q.Errno())))
+		}
+		return List(Int(1), held[0], held[1], held[2], d)
+	case 10:
+		code, _ := concurrentBodies(in.At(1).Uint64(), in.At(2).AsInt(), in.At(3).AsInt())
+		return List(Int(10), Int(int64(code)))
 	case 8:
 		// the same packet object encoded again after an encrypted encode (resend / broadcast)
 		mk := func(cd, thr int) codec.Encoder {
@@ -794,6 +912,40 @@ func gen(a Args, out *Out) {
 			emit("wire-"+kindOf(g), List(Int(3), Int(int64(cd)), Int(int64(thr)), Bool(encb), h.sx(), List(Int(1), g)))
 		}
 	}
+	// scenario 9: three numeric wire forms alive at the same time
+	numWhat := func() Sx {
+		if rng.Chance(1, 3) {
+			return List(Int(0), Int(genErrno(rng)))
+		}
+		for {
+			g := genGov(rng, out)
+			if t := g.At(0).AsInt(); t >= 1 && t <= 4 {
+				return List(Int(1), g)
+			}
+		}
+	}
+	for i := 0; i < 120*scale; i++ {
+		emit("hold", List(Int(9), numWhat(), numWhat(), numWhat()))
+	}
+	// scenario 10: separate packets on 8 goroutines at the same time
+	citers := 4000
+	if a.Thorough() {
+		citers = 60000
+	}
+	for rep := 0; rep < 3; rep++ {
+		cseed := rng.Next()
+		code, checked := concurrentBodies(cseed, 8, citers)
+		out.GoChecked += checked
+		out.Count("concurrent runs")
+		if code != 0 {
+			what := map[int]string{3: "wire-form", 4: "errno", 5: "panic"}[code]
+			out.Violation("C07/concurrent/"+what, "8 goroutines with their own packets: "+what+" fails", List(List(Int(10), Uint(cseed), Int(8), Int(int64(citers))), List()))
+		}
+		if rep == 0 {
+			emit("concurrent", List(Int(10), Uint(cseed), Int(8), Int(300)))
+		}
+	}
+	out.Note("concurrent stress: 3 x 8 goroutines x %d iterations on their own packets", citers)
 	// every boundary error code through both codecs, with and without the cipher
 	for _, ecode := range []int64{0, 1, -1, 127, 128, 32767, 32768, math.MaxInt32 - 1, math.MaxInt32, math.MinInt32, math.MinInt32 + 1, 1002} {
 		for cd := 1; cd <= 2; cd++ {
